@@ -308,11 +308,16 @@ def _all_ops(prog):
 FS_CALLS = ['open', 'write', 'close', 'read', 'makedirs', 'remove', 'removedirs']
 
 
+def runner_guarded(pid, fn, case):
+    from ..runner import guarded
+    return guarded(pid, fn, case)
+
+
 def run_seed(seed, tier):
     case = gen_case(seed, tier)
     rng = random.Random('%s/c08-fault' % seed)
     results = []
-    base = run_case(copy.deepcopy(case))
+    base = runner_guarded(PROPERTY, run_case, copy.deepcopy(case))
     base['case'] = case
     base['first_of_seed'] = True
     counts = base.pop('counts', [])
@@ -339,7 +344,7 @@ def run_seed(seed, tier):
         else:
             c['faults'] = [{'f': 'oserr', 'task': task, 'op': i, 'n': n, 'calls': FS_CALLS,
                             'errno': rng.choice(('ENOSPC', 'EIO', 'EACCES', 'EMFILE', 'EEXIST'))}]
-        r = run_case(copy.deepcopy(c))
+        r = runner_guarded(PROPERTY, run_case, copy.deepcopy(c))
         r.pop('counts', None)
         r['case'] = c
         r['first_of_seed'] = False
